@@ -115,7 +115,9 @@ func (e *envT) generate(t *testing.T, g *xds.EdsGenerator, p *model.Proxy, req *
 		names = append(names, c.Name)
 	}
 	w := &model.WatchedResource{TypeUrl: v3.EndpointType, ResourceNames: sets.New(names...)}
-	req.Push = e.push
+	if req.Push == nil {
+		req.Push = e.push
+	}
 	rs, _, err := g.Generate(p, w, req)
 	if err != nil {
 		t.Fatalf("EDS generator: %v", err)
@@ -375,7 +377,7 @@ func (r *runner) runCase(c caseT) (nontrivial bool) {
 			}
 			for ci := range clusterForms {
 				o := got[clusterForms[ci].Name]
-				nt, ok := r.judgeView(c, e, w, st.Name, "on-request", pi, ci, o, pushType)
+				nt, ok := r.judgeView(c, e, w, r.ctxOf(c, pi, ci), st.Name, "on-request", pi, o, pushTypeName[pushType])
 				if nt {
 					nontrivial = true
 				}
@@ -419,7 +421,7 @@ func (r *runner) runCase(c caseT) (nontrivial bool) {
 					}
 					continue
 				}
-				r.judgeView(c, e, w, st.Name, "subscriber", pi, ci, o, pushType)
+				r.judgeView(c, e, w, r.ctxOf(c, pi, ci), st.Name, "subscriber", pi, o, pushTypeName[pushType])
 			}
 		}
 	}
@@ -428,12 +430,28 @@ func (r *runner) runCase(c caseT) (nontrivial bool) {
 
 var pushTypeName = map[model.PushType]string{model.NoPush: "NoPush", model.IncrementalPush: "IncrementalPush", model.FullPush: "FullPush"}
 
-func (r *runner) judgeView(c caseT, e *envT, w world, step, viewKind string, pi, ci int, o *obsCLA, pt model.PushType) (nontrivial, ok bool) {
-	vc := viewCtx{DR: drForms[c.DR], Fl: flavours[c.Fl], Ft: featForms[c.Ft], Px: proxyForms[pi], Cl: clusterForms[ci]}
+func (r *runner) ctxOf(c caseT, pi, ci int) viewCtx {
+	return viewCtx{DR: drForms[c.DR], Fl: flavours[c.Fl], Ft: featForms[c.Ft], Px: proxyForms[pi], Cl: clusterForms[ci]}
+}
+
+// staleKey: a stale view is named by the step and the kind of difference, not by the endpoint.
+func staleKey(viewKind, step, inner, push string) string {
+	for _, cut := range []string{"|ep=", "|settings=", "|svc="} {
+		if i := strings.Index(inner, cut); i >= 0 {
+			inner = inner[:i]
+		}
+	}
+	k := "stale-" + viewKind + "-view|after=" + step + "|" + inner
+	if viewKind == "subscriber" {
+		k += "|push=" + push
+	}
+	return k
+}
+
+func (r *runner) judgeView(c caseT, e *envT, w world, vc viewCtx, step, viewKind string, pi int, o *obsCLA, pushLabel string) (nontrivial, ok bool) {
 	r.res.Evaluations++
 	if r.sig != nil {
-		fmt.Fprintf(r.sig, "%s|%s|%d|%d|%s\n", step, viewKind, pi, ci, o)
-
+		fmt.Fprintf(r.sig, "%s|%s|%d|%s|%s\n", step, viewKind, pi, vc.Cl.Subset, o)
 	}
 	fs := check(o, w, vc, r.alpha)
 	req, excluded := expectedMembers(w, vc)
@@ -455,7 +473,7 @@ func (r *runner) judgeView(c caseT, e *envT, w world, step, viewKind string, pi,
 	}
 	if r.verbose {
 		r.t.Logf("step %-16s %-10s proxy=%s cluster=%s push=%s\n   reported %s\n   required %v (excluded %d)\n   observed %s\n   findings %d", step, viewKind, vc.Px.Name, vc.Cl.Name,
-			pushTypeName[pt], w, req, excluded, o, len(fs))
+			pushLabel, w, req, excluded, o, len(fs))
 	}
 	if len(fs) == 0 {
 		return nontrivial, true
@@ -469,13 +487,10 @@ func (r *runner) judgeView(c caseT, e *envT, w world, step, viewKind string, pi,
 	for _, f := range fs {
 		key := f.Key
 		if !coldKeys[key] {
-			key = "stale-" + viewKind + "-view|after=" + step + "|" + f.Key
-			if viewKind == "subscriber" {
-				key += "|push=" + pushTypeName[pt]
-			}
+			key = staleKey(viewKind, step, f.Key, pushLabel)
 		}
 		desc := fmt.Sprintf("%s; %s view of proxy %s, cluster %s, after step %q (push decision %s); registries' latest reports: %s; reference requires %v; listed: %s; a cold generation lists: %s :: %s",
-			c, viewKind, vc.Px.Name, vc.Cl.Name, step, pushTypeName[pt], w, req, o, cold, f.Desc)
+			c, viewKind, vc.Px.Name, vc.Cl.Name, step, pushLabel, w, req, o, cold, f.Desc)
 		r.res.Violate(key, desc, c)
 	}
 	return nontrivial, false
